@@ -577,6 +577,19 @@ def r_fmt(ctx, col, fields, tier):
     for st in gv.node.body:
         if isinstance(st, ast.If) and any(isinstance(n, ast.Attribute) and n.attr == "issubdtype" for n in ast.walk(st.test)) \
                 and any(isinstance(n, ast.Attribute) and n.attr in ("floating", "inexact") for n in ast.walk(st.test)):
+            # the value itself replaced by zero below a threshold (`if abs(v) < c: v = 0.0`) is the same thing one step earlier
+            for n in ast.walk(st):
+                if isinstance(n, ast.If) and isinstance(n.test, ast.Compare) and len(n.test.ops) == 1 and isinstance(n.test.ops[0], (ast.Lt, ast.LtE)) and isinstance(n.test.left, ast.Call) \
+                        and (dotted(n.test.left.func) or "").rsplit(".", 1)[-1] in ("abs", "fabs", "absolute") and isinstance(n.test.comparators[0], ast.Constant) \
+                        and isinstance(n.test.comparators[0].value, (int, float)):
+                    c = float(n.test.comparators[0].value)
+                    zeroed = [a for a in n.body if isinstance(a, ast.Assign) and isinstance(a.value, ast.Constant) and a.value.value == 0
+                              and n.test.left.args and norm_src(a.targets[0]) == norm_src(n.test.left.args[0])]
+                    if zeroed:
+                        ok_ = c < half or (c == half and isinstance(n.test.ops[0], ast.Lt))
+                        col.check(ok_, "R-CELLCONST", gv.qualname, gv.loc(n), "a value is flushed to zero only when it rounds to zero", f"|v| < {c:g}",
+                                  f"`{norm_src(n.test)}: {norm_src(zeroed[0])}` flushes every float with |v| < {c:g} to zero before it is formatted: values from {half:g} up to that bound round to "
+                                  f"+-{10 ** (-DECIMALS):g} at {DECIMALS} decimals, the file says 0 -- the round trip loses them", stmt="cell-flush", definite=True)
             for n in ast.walk(st):
                 if isinstance(n, ast.Return) and isinstance(n.value, ast.Constant) and isinstance(n.value.value, str):
                     tests, complete = pathcond.conditions_at(gv.node, n)
